@@ -6,6 +6,8 @@ package main
 // invalidation breaks format rule X" => must be refused).
 
 import (
+	"os"
+	"unicode"
 	"fmt"
 	"crypto/ecdsa"
 	"crypto/elliptic"
@@ -53,6 +55,39 @@ func runValidateRepeat(target string, v *valInput, times int) string {
 }
 
 func runValidate(target string, v *valInput) string {
+	if strings.HasSuffix(target, "+reload") {
+		// written with the library's Dump, read with LoadMetadata, then validated
+		return lib.Recover(func() string {
+			if v.Layout == nil {
+				return "?"
+			}
+			path := tmpFile("reload-validate.json")
+			os.Remove(path)
+			mb := intoto.Metablock{Signed: *v.Layout, Signatures: v.Sigs}
+			if err := mb.Dump(path); err != nil {
+				return "DUMP-ERR"
+			}
+			md, err := intoto.LoadMetadata(path)
+			if err != nil {
+				return "LOAD-ERR"
+			}
+			lmb, ok := md.(*intoto.Metablock)
+			if !ok {
+				return "LOAD-OTHER-WRAPPER"
+			}
+			// forty times: the verdict must not depend on the iteration order of the tables
+			count := map[string]int{}
+			for i := 0; i < 40; i++ {
+				count[errStr(intoto.ValidateMetablock(*lmb))]++
+			}
+			if len(count) == 1 {
+				for k := range count {
+					return k
+				}
+			}
+			return fmt.Sprintf("NONDETERMINISTIC(OK %d times, ERR %d times)", count["OK"], count["ERR"])
+		})
+	}
 	if strings.HasSuffix(target, "*40") {
 		return runValidateRepeat(strings.TrimSuffix(target, "*40"), v, 40)
 	}
@@ -148,7 +183,7 @@ func pemTable(strs ...string) string {
 }
 
 func modelValidate(target string, v *valInput) string {
-	target = strings.TrimSuffix(target, "*40")
+	target = strings.TrimSuffix(strings.TrimSuffix(target, "*40"), "+reload")
 	ok := "(fun _ : unit => @nil N)"
 	switch target {
 	case "metablock":
@@ -636,6 +671,170 @@ func schemeCases(r *lib.Rng) []valCase {
 	return out
 }
 
+// ---------- rule keywords written with fold look-alikes ----------
+
+// the code points c with strings.EqualFold(string(c), letter) but strings.ToLower(string(c)) != letter: a keyword
+// comparison by Unicode simple folding accepts them, lower-casing (what the rule grammar says) does not
+func foldLookalikes(letter rune) []rune {
+	var out []rune
+	for c := unicode.SimpleFold(letter); c != letter; c = unicode.SimpleFold(c) {
+		if strings.EqualFold(string(c), string(letter)) && strings.ToLower(string(c)) != string(letter) {
+			out = append(out, c)
+		}
+	}
+	return out
+}
+
+// every way to write the keyword with exactly one letter replaced by a fold look-alike (in the upper-case
+// and the lower-case spelling)
+func foldVariants(keyword string) []string {
+	var out []string
+	for _, spelled := range []string{strings.ToUpper(keyword), strings.ToLower(keyword)} {
+		rs := []rune(spelled)
+		for i, ch := range []rune(strings.ToLower(keyword)) {
+			for _, c := range foldLookalikes(ch) {
+				v := append([]rune{}, rs...)
+				v[i] = c
+				out = append(out, string(v))
+			}
+		}
+	}
+	return out
+}
+
+func keywordFoldCases(r *lib.Rng) []valCase {
+	shapes := [][]string{
+		{"CREATE", "a"}, {"MODIFY", "a"}, {"DELETE", "a"}, {"ALLOW", "a"}, {"DISALLOW", "a"}, {"REQUIRE", "a"},
+		{"MATCH", "a", "WITH", "PRODUCTS", "FROM", "s"}, {"MATCH", "a", "WITH", "MATERIALS", "FROM", "s"},
+		{"MATCH", "a", "IN", "p", "WITH", "PRODUCTS", "FROM", "s"}, {"MATCH", "a", "WITH", "MATERIALS", "IN", "q", "FROM", "s"},
+		{"MATCH", "a", "IN", "p", "WITH", "PRODUCTS", "IN", "q", "FROM", "s"},
+	}
+	kwpos := func(rule []string) []int {
+		switch len(rule) {
+		case 2:
+			return []int{0}
+		case 6:
+			return []int{0, 2, 3, 4}
+		case 8:
+			if strings.EqualFold(rule[2], "in") {
+				return []int{0, 2, 4, 5, 6}
+			}
+			return []int{0, 2, 3, 4, 6}
+		default:
+			return []int{0, 2, 4, 5, 6, 8}
+		}
+	}
+	place := func(n int, rule []string) intoto.Layout {
+		switch n % 4 {
+		case 0:
+			return ruleLayout([][]string{rule}, nil, nil, nil)
+		case 1:
+			return ruleLayout(nil, [][]string{{"ALLOW", "*"}, rule}, nil, nil)
+		case 2:
+			return ruleLayout(nil, nil, nil, [][]string{rule})
+		default:
+			l := ruleLayout(nil, nil, nil, [][]string{})
+			l.Inspect[0].ExpectedProducts = [][]string{rule}
+			return l
+		}
+	}
+	where := []string{"materials of a step", "products of a step", "materials of an inspection", "products of an inspection"}
+	var out []valCase
+	n := 0
+	for _, sh := range shapes {
+		for _, pos := range kwpos(sh) {
+			for _, fv := range foldVariants(sh[pos]) {
+				rule := append([]string{}, sh...)
+				rule[pos] = fv
+				l := place(n, rule)
+				out = append(out, valCase{klass: "rule-keyword-fold", target: "metablock", v: valInput{Layout: &l}, want: "ERR",
+					desc: fmt.Sprintf("rule %q among the %s: keyword %q written %q (U+%04X folds to the letter, lower-casing does not give it)",
+						rule, where[n%4], sh[pos], fv, firstNonASCII(fv))})
+				n++
+			}
+		}
+		// ASCII twins in upper, lower and mixed case are accepted
+		for k, f := range []func(string) string{strings.ToUpper, strings.ToLower, func(s string) string { return strings.ToUpper(s[:1]) + strings.ToLower(s[1:]) }} {
+			rule := append([]string{}, sh...)
+			for _, pos := range kwpos(sh) {
+				rule[pos] = f(rule[pos])
+			}
+			l := place(n+k, rule)
+			out = append(out, valCase{klass: "rule-keyword-ascii-case", target: "metablock", v: valInput{Layout: &l}, want: "OK",
+				desc: fmt.Sprintf("rule %q among the %s", rule, where[(n+k)%4])})
+		}
+	}
+	return out
+}
+
+func firstNonASCII(s string) rune {
+	for _, c := range s {
+		if c >= 0x80 {
+			return c
+		}
+	}
+	return 0
+}
+
+// ---------- the same key id in several of the key tables ----------
+
+func sharedIDCases(r *lib.Rng) []valCase {
+	tables := [][]string{{"keys", "rootcas"}, {"keys", "intermediatecas"}, {"rootcas", "intermediatecas"}, {"keys", "rootcas", "intermediatecas"}}
+	bads := []struct {
+		name string
+		f    func(k *intoto.Key)
+	}{
+		{"private part present", func(k *intoto.Key) { k.KeyVal.Private = "0a0b" }},
+		{"scheme of another key type", func(k *intoto.Key) { k.KeyType, k.Scheme = "rsa", "ed25519" }},
+		{"empty keyval", func(k *intoto.Key) { k.KeyVal = intoto.KeyVal{} }},
+		{"keyid field differing from the map key", func(k *intoto.Key) { k.KeyID = k.KeyID + "ff" }},
+	}
+	build := func(id string, tabs []string, badAt int, bad func(k *intoto.Key)) intoto.Layout {
+		l := intoto.Layout{Type: "layout", Expires: "2030-01-02T03:04:05Z"}
+		for i, t := range tabs {
+			k := intoto.Key{KeyID: id, KeyType: "ed25519", Scheme: "ed25519", KeyVal: intoto.KeyVal{Public: hexStr(r, 16)}}
+			if i == badAt {
+				bad(&k)
+			}
+			m := map[string]intoto.Key{id: k}
+			other := genKey(r) // an unrelated well-formed entry next to it
+			other.KeyVal.Certificate = ""
+			if other.KeyVal.Public == "" {
+				other.KeyVal.Public = "00ff"
+			}
+			m[other.KeyID] = other
+			switch t {
+			case "keys":
+				l.Keys = m
+			case "rootcas":
+				l.RootCas = m
+			default:
+				l.IntermediateCas = m
+			}
+		}
+		return l
+	}
+	var out []valCase
+	for _, tabs := range tables {
+		id := hexStr(r, 8)
+		for _, b := range bads {
+			for at := range tabs {
+				l := build(id, tabs, at, b.f)
+				desc := fmt.Sprintf("key id %s in %s; the entry in %s is malformed (%s), the others are well-formed", id, strings.Join(tabs, " and "), tabs[at], b.name)
+				l2 := l
+				out = append(out, valCase{klass: "key-tables-sharing-id", target: "metablock*40", v: valInput{Layout: &l}, want: "ERR", desc: desc + "; in memory"})
+				out = append(out, valCase{klass: "key-tables-sharing-id", target: "metablock+reload", v: valInput{Layout: &l2}, want: "ERR", desc: desc + "; after Dump + LoadMetadata"})
+			}
+		}
+		l := build(id, tabs, -1, nil)
+		l2 := l
+		desc := fmt.Sprintf("key id %s in %s, every entry well-formed", id, strings.Join(tabs, " and "))
+		out = append(out, valCase{klass: "key-tables-sharing-id-valid", target: "metablock*40", v: valInput{Layout: &l}, want: "OK", desc: desc + "; in memory"})
+		out = append(out, valCase{klass: "key-tables-sharing-id-valid", target: "metablock+reload", v: valInput{Layout: &l2}, want: "OK", desc: desc + "; after Dump + LoadMetadata"})
+	}
+	return out
+}
+
 // ---------- histories: the verdict on a document must not depend on what was validated before ----------
 
 // pairs of rules with the same blank-joined text but different token boundaries: the first is
@@ -774,6 +973,8 @@ func valCases(r *lib.Rng, w *lib.Writer, n int, thorough bool) {
 	defer historyCases(r.Fork(), w)
 	all = append(all, multiKeyCases(r.Fork())...)
 	all = append(all, schemeCases(r.Fork())...)
+	all = append(all, keywordFoldCases(r.Fork())...)
+	all = append(all, sharedIDCases(r.Fork())...)
 	for _, c := range all {
 		v := c.v
 		in := input{Kind: "validate", Target: c.target, Val: &v, Desc: c.klass}
